@@ -72,13 +72,23 @@ ENV_OVERRIDE = {}
 
 def sub_env(sub):
     e = dict(os.environ)
+    if sub == "asan":
+        e.update(ASAN_ENV)
     e.update(ENV_OVERRIDE.get(sub, {}))
     return e
+
+
+# properties whose *quick* tier also runs the AddressSanitizer worker (the raw-pointer code paths:
+# memory errors that no value oracle can see)
+QUICK_ASAN = {"C01", "C03", "C05", "C06", "C07", "C11", "C12"}
+ASAN_ENV = {"ASAN_OPTIONS": "detect_leaks=0:abort_on_error=1:symbolize=0", "TDV_SUBSTRATE": "asan"}
 
 
 def bin_path(sub):
     if sub in BIN_OVERRIDE:
         return BIN_OVERRIDE[sub]
+    if sub == "asan":
+        return os.path.join(target_dir("asan"), "x86_64-unknown-linux-gnu", "release", "tdcheck")
     prof = "debug" if sub == "dbg" else "release"
     return os.path.join(target_dir(sub), prof, "tdcheck")
 
@@ -91,10 +101,16 @@ def build(subs):
         shutil.copy("/repo/Cargo.lock", lock)
     procs = []
     for sub in subs:
-        cmd = ["cargo", "build", "--bin", "tdcheck", "--target-dir", target_dir(sub)]
-        if sub == "rel":
-            cmd.append("--release")
-        procs.append((sub, subprocess.Popen(cmd, cwd=HARNESS, env=env_offline(), stdout=subprocess.PIPE, stderr=subprocess.STDOUT, text=True)))
+        env = env_offline()
+        if sub == "asan":
+            # AddressSanitizer build of the same worker (nightly; debug assertions and overflow checks on)
+            env["RUSTFLAGS"] = "-Zsanitizer=address -Cdebug-assertions=on -Coverflow-checks=on"
+            cmd = ["cargo", "+nightly", "build", "--release", "--bin", "tdcheck", "--target", "x86_64-unknown-linux-gnu", "--target-dir", target_dir("asan")]
+        else:
+            cmd = ["cargo", "build", "--bin", "tdcheck", "--target-dir", target_dir(sub)]
+            if sub == "rel":
+                cmd.append("--release")
+        procs.append((sub, subprocess.Popen(cmd, cwd=HARNESS, env=env, stdout=subprocess.PIPE, stderr=subprocess.STDOUT, text=True)))
     err = None
     for sub, p in procs:
         out, _ = p.communicate()
@@ -420,7 +436,7 @@ def main(argv, verif):
     VERIF = verif
     HARNESS = os.path.join(verif, "harness")
     if argv and argv[0] == "--build":
-        err = build(["dbg", "rel"])
+        err = build(["dbg", "rel", "asan"])
         if err:
             log(err)
             return 2
@@ -441,7 +457,8 @@ def main(argv, verif):
     if "--seed" in argv:
         seed = int(argv[argv.index("--seed") + 1])
     t0 = time.time()
-    err = build(["dbg", "rel"])
+    quick_asan = tier == "quick" and pid in QUICK_ASAN
+    err = build(["dbg", "rel"] + (["asan"] if quick_asan else []))
     if err:
         log(err)
         log("INCONCLUSIVE: the harness does not build against /repo's working tree")
@@ -451,6 +468,9 @@ def main(argv, verif):
     timeout = 480 if tier == "quick" else 7200
     handles = [run_native(sub, pid, tier, seed, threads, timeout) for sub in ("dbg", "rel")]
     results = [finish_native(h) for h in handles]
+    if quick_asan:
+        # after dbg/rel so that the three do not fight for the cores; enumeration + 10% of the random cases
+        results.append(finish_native(run_native("asan", pid, tier, seed, NCPU, timeout, extra=["--scale", "0.1"])))
 
     if tier == "thorough":
         import thorough
